@@ -159,6 +159,44 @@ def run_profile(tid, ballots, rng):
     return rec
 
 
+def apalache_obligations(rep):
+    """Unbounded strengthening (not a dependency): the tally / assorter-sum relation as an inductive invariant,
+    discharged by Apalache for any number of ballots (spec/BallotsInd.tla)."""
+    import shutil
+    import subprocess
+    import tempfile
+    import time
+    if shutil.which("apalache-mc") is None:
+        rep.notes.append("apalache-mc not found: inductive-invariant obligations skipped")
+        return
+    obligations = [("base: Init => IndInv", ["--init=Init", "--inv=IndInv", "--length=0"]),
+                   ("step: IndInv /\\ Next => IndInv'", ["--init=IndInit", "--inv=IndInv", "--length=1"]),
+                   ("IndInv => PluralityIff", ["--init=IndInit", "--inv=PluralityIff", "--length=0"])]
+    wd = tempfile.mkdtemp(prefix="verif-apa-")
+    out = []
+    try:
+        shutil.copy(core.SPEC + "/BallotsInd.tla", wd)
+        for name, args in obligations:
+            t0 = time.time()
+            try:
+                p = subprocess.run(["apalache-mc", "check", "--cinit=CInit", f"--out-dir={wd}/o"] + args + ["BallotsInd.tla"],
+                                   cwd=wd, capture_output=True, text=True, timeout=400)
+                txt = p.stdout + p.stderr
+                ok = "The outcome is: NoError" in txt
+                bad = "The outcome is: Error" in txt
+            except subprocess.TimeoutExpired:
+                ok, bad, txt = False, False, "timeout"
+            out.append({"obligation": name, "discharged": ok, "wall_s": round(time.time() - t0, 1)})
+            if bad:
+                rep.violation("BallotsInd.tla", "apalache:" + name.split(":")[0],
+                              f"Apalache found a counterexample to {name}", {"output": txt[-3000:]})
+            elif not ok:
+                rep.notes.append(f"apalache obligation '{name}' not decided ({txt[-200:]!r})")
+    finally:
+        shutil.rmtree(wd, ignore_errors=True)
+    rep.cov["apalache_inductive_invariant"] = out
+
+
 def run(pid, tier):
     rep = Report(pid, tier)
     core.import_repo()
@@ -189,6 +227,7 @@ def run(pid, tier):
     for k in range(nbig):
         prof = [rng.choice(types) for _ in range(rng.randint(6, 30))]
         recs.append(run_profile(f"r{k}", prof, rng))
+    apalache_obligations(rep)
     rejects, stats = core.validate_traces("Trace_Ballots", recs)
     rep.add_trace_stats("Trace_Ballots", stats)
     byid = {r["tid"]: r for r in recs}
